@@ -228,6 +228,19 @@ func c18Value(c *core.Ctx, a appType, p appPayload, r *core.RNG, how string) {
 		c.Violate("C18|"+a.name+"|size", "encodes to %d bytes but Size() = %d | %s", len(b), p.Size(), core.Dump(p))
 		return
 	}
+	// the bytes handed out are the caller's: overwriting / appending to one result must not reach another
+	{
+		keep := append([]byte{}, b...)
+		b2, _ := p.MarshalBinary()
+		for i := range b2 {
+			b2[i] ^= 0xff
+		}
+		_ = append(b2, 0xEE, 0xEE, 0xEE)
+		if b3, e3 := p.MarshalBinary(); e3 != nil || !bytes.Equal(b3, keep) || !bytes.Equal(b, keep) {
+			c.Violate("C18|"+a.name+"|output-shared", "encoding %s gives %x; after the caller overwrote the bytes of another encode of it the first result reads %x and a new encode gives %x (%v)", core.Dump(p), keep, b, b3, e3)
+			return
+		}
+	}
 	for _, tail := range [][]byte{nil, r.Bytes(1 + r.Intn(6)), {0xff, 0xff, 0xff, 0xff, 0xff, 0xff, 0xff, 0xff, 0xff}} {
 		if a.name == "fragmentation.DataFragmentPayload" && tail != nil {
 			continue // the fragment extends to the end of the message by definition
